@@ -38,5 +38,16 @@ def run(ctx):
     ctx.floor("E5", 4)
     ctx.floor("E7", 3)
     ctx.floor("E8", 1)
+    E.e12_cache_before_recompute(ctx)
+    ctx.floor("E12", 1)
+    # the table method and the extractor judge a rule by its key: the three forest_key forms build
+    # (label of parent, labels of children in order, shifts) alike, and the shifts a derived rule
+    # declares are position by position those of its own children (engine S, quick parameters)
+    from ..engines import sizecheck as SC
+    SC.s4_forest_keys(ctx)
+    for fam in SC.strategy_families(ctx.P):
+        st = SC.run_family(ctx, fam, 3, 2)
+        SC.run_derived(ctx, fam, 3, st)
+    ctx.floor("S4", 8)
     ctx.floor("E9", 1)
     ctx.floor("E10", 7)
